@@ -122,6 +122,8 @@ fn build(case: &C01Case) -> (ModelTree, Vec<u32>, Option<u32>)
                 after: 0,
                 preamble: Preamble::None,
                 trailing_directive: None,
+                name_gap: 0,
+                bang_gap: 0,
             };
             let set_ref = |s: &mut StmtSpec, n: u32| {
                 if case.structured
